@@ -153,6 +153,18 @@ def stmtsNodupB (H : Hier) : Bool :=
   let keys := H.stmts.map (fun s => (s.1, PV.Nets.normEdge s.2))
   decide (dedup keys = keys)
 
+/-- `all pairs (earlier, later)` of a list satisfy `r` -/
+def pairwiseB {α : Type} (r : α → α → Bool) : List α → Bool
+  | [] => true
+  | a :: l => l.all (r a) && pairwiseB r l
+
+/-- the net list is what elaboration leaves: the members of a net are the connected component of its writer, the writers
+of different nets are not connected, every signal that occurs in a statement is in the component of some writer -/
+def netsOkB (H : Hier) : Bool :=
+  H.nets.all (fun n => PV.Nets.sortDedup n.2 == PV.Nets.netOf H.edges n.1) &&
+  pairwiseB (fun a b => !decide (b.1 ∈ PV.Nets.netOf H.edges a.1)) H.nets &&
+  H.edges.all (fun e => H.nets.any (fun n => decide (e.1 ∈ PV.Nets.netOf H.edges n.1)))
+
 /-- ids in range, `None` is its own parent, nothing is hosted by `None`, no statement is executed by `None` -/
 def Hier.wf (H : Hier) : Bool :=
   decide (H.par.head? = some 0) &&
